@@ -343,8 +343,8 @@ pub fn gen_lef(src: &mut Src, o: &LefGenOpts) -> LefLibrary {
         version,
         names_case_sensitive: if le54 { opt(src, 1, 2, |s| *s.pick(&[LefOnOff::On, LefOnOff::Off])) } else { None },
         no_wire_extension_at_pin: opt(src, 1, 4, |s| *s.pick(&[LefOnOff::On, LefOnOff::Off])),
-        bus_bit_chars: opt(src, 1, 3, |s| *s.pick(&[('[', ']'), ('<', '>'), ('(', ')'), ('{', '}')])),
-        divider_char: opt(src, 1, 3, |s| *s.pick(&['/', '|', '.', ':'])),
+        bus_bit_chars: opt(src, 1, 3, |s| *s.pick(&[('[', ']'), ('<', '>'), ('(', ')'), ('{', '}'), ('\\', '/'), ('«', '»'), ('\'', '`'), ('#', ';')])),
+        divider_char: opt(src, 1, 3, |s| *s.pick(&['/', '|', '.', ':', '\\', '·', '\'', '#', ';'])),
         units: opt(src, 1, 2, |s| LefUnits {
             database_microns: opt(s, 2, 3, |s| LefDbuPerMicron(*s.pick(DBU))),
             time_ns: opt(s, 1, 4, gen_pos_dec),
